@@ -89,21 +89,99 @@ def superseded_filter(part, upd_parts, children_src):
     return True, ""
 
 
-def run(ctx: Context, rep) -> None:
-    rep.not_decided = (
-        "correctness of the recursive merge over concrete histories (the "
-        "per-call accounting is C04.delta; here: load-then-extend, "
-        "de-duplication of the update set, prefix/key agreement of the "
-        "recursion, no destructive effect, refusal of create)")
-    rep.assumptions += [
-        "one live handle at a time (the property's quantifier)",
-        "is_file() of the resolved list path decides between load and create",
-    ]
-    loc_fn = ctx.fn(f"{SL}:ShardsList.load_or_create")
+def check_dedup(ctx: Context, rep, rule: str) -> None:
+    # -- C08.dedup / recursion ------------------------------------------------------------
+    rep.rule(
+        rule,
+        "in merge_shard_infos a known child is moved into the update set "
+        "only when no update for the same list file is present (otherwise a "
+        "reused sub-directory enters the recursion twice and the session "
+        "aborts after rewriting the child list); the recursion's prefix "
+        "slices use [:common], the grouping key is parts[common], the level "
+        "tests compare with common + 1 and the recursive call passes "
+        "common + 1")
+    mg = ctx.fn(MG)
+    mt = merge_terms(ctx)
+    G = mt["group"]
+    children_src = mt["obj"] + ".children_shard_lists"
+    if G is None:
+        rep.ob(rule, False, loc=mg.loc(), where=mg.qualname,
+               construct=collalg.pretty(mt["children"])[:160],
+               message="the re-attached children are not the per-directory "
+               "merges of a grouping of the updates")
+    else:
+        parts = collalg.concat_parts(G[2])
+        upd_parts = [p for p in parts if collalg.sources(p) == {"updates"}]
+        old_parts = [p for p in parts if children_src in collalg.sources(p)]
+        rep.ob(rule, len(upd_parts) >= 1 and len(old_parts) >= 1 and
+               len(upd_parts) + len(old_parts) == len(parts), loc=mg.loc(),
+               where=mg.qualname,
+               construct="grouped = " + collalg.pretty(G[2])[:200],
+               message="the recursion receives the deeper updates and the "
+               "already known children of this list (nothing else, nothing "
+               "lost)")
+        for p in old_parts:
+            ok, detail = superseded_filter(p, upd_parts, children_src)
+            rep.ob(rule, ok, loc=mg.loc(), where=mg.qualname,
+                   construct=f"known children moved: {collalg.pretty(p)[:150]}",
+                   message="a child that is being updated must be superseded "
+                   "by its update, not merged alongside it" + (
+                       f" ({detail})" if detail else ""))
+    text = ast.unparse(mg.node)
+    slices = [n for n in mg.body_nodes() if isinstance(n, ast.Subscript) and
+              ast.unparse(n.value).endswith(".parts")]
+    for s in slices:
+        sl = s.slice
+        if isinstance(sl, ast.Slice):
+            ok = sl.lower is None and sl.step is None and dotted(sl.upper) == \
+                "common"
+            what = "prefix slice"
+        else:
+            ok = dotted(sl) == "common"
+            what = "grouping key"
+        rep.ob(rule, ok, loc=mg.loc(s), where=mg.qualname,
+               construct=short(s), message=f"{what} must be relative to "
+               "`common`")
+    rec = [c for c in mg.calls() if ctx.is_call(
+        mg, c, "merge_shard_infos.merge_shard_infos")]
+    rep.ob(rule, len(rec) == 1 and ast.unparse(
+        ctx.arg(rec[0], 2, "common") or ast.Constant(0)) == "common + 1" and
+           ast.unparse(ctx.arg(rec[0], 1, "dataset_root") or ast.Constant(0))
+           == "dataset_root", loc=mg.loc(rec[0]) if rec else mg.loc(),
+           where=mg.qualname, construct=short(rec[0], 100) if rec else "<none>",
+           message="recursion descends exactly one directory level in the "
+           "same dataset")
+    lvl = [c for c in mg.body_nodes() if isinstance(c, ast.Compare) and
+           "len(" in ast.unparse(c.left) and ".parts" in ast.unparse(c.left)]
+    forms = sorted(ast.unparse(c.ops[0].__class__()) if False else
+                   type(c.ops[0]).__name__ + " " + ast.unparse(c.comparators[0])
+                   for c in lvl)
+    rep.ob(rule, forms == ["Eq common + 1", "Gt common + 1"],
+           loc=mg.loc(), where=mg.qualname, construct=f"level tests {forms}",
+           message="updates are split into this level (== common + 1) and "
+           "deeper (> common + 1), nothing is dropped")
+    # the group key for each deeper update comes from that update's own path
+    ok = G is not None and G[4] == "_" and \
+        "_.shard_list_info_file.file_path.parts[common]" in G[3]
+    rep.ob(rule, ok, loc=mg.loc(), where=mg.qualname,
+           construct="group key: " + (G[3] if G is not None else "<none>"),
+           message="every deeper update lands (itself, unchanged) in the "
+           "group of its own directory")
+    # merged children are all re-added
+    cparts = collalg.concat_parts(mt["children"])
+    ok = G is not None and len(cparts) == 1 and cparts[0][0] == "map" and \
+        cparts[0][1] == ("items", G) and is_recursive_merge(cparts[0][2])
+    rep.ob(rule, ok, loc=mg.loc(), where=mg.qualname,
+           construct="children = " + collalg.pretty(mt["children"])[:120],
+           message="every merged directory (each group, unfiltered) is "
+           "listed as a child again, exactly once")
 
+
+def check_load(ctx: Context, rep, rule: str) -> None:
+    loc_fn = ctx.fn(f"{SL}:ShardsList.load_or_create")
     # -- C08.load ---------------------------------------------------------------
     rep.rule(
-        "C08.load",
+        rule,
         "the ShardsList(...) constructor is called only in load_or_create "
         "and is unreachable there when the list file exists (then the file "
         "at the same root/relative path is parsed and returned); every "
@@ -116,9 +194,9 @@ def run(ctx: Context, rep) -> None:
                 if t.kind == "class" and t.cls.fq == f"{SL}.ShardsList":
                     ctor_sites.append((fn, c))
     if not ctor_sites:
-        raise AnalysisError("C08.load: no ShardsList construction found")
+        raise AnalysisError("load: no ShardsList construction found")
     for fn, c in ctor_sites:
-        rep.ob("C08.load", fn is loc_fn, loc=fn.loc(c), where=fn.qualname,
+        rep.ob(rule, fn is loc_fn, loc=fn.loc(c), where=fn.qualname,
                construct=short(c),
                message="a fresh (empty) list may only be made by "
                "load_or_create, otherwise an existing list would be replaced")
@@ -146,7 +224,7 @@ def run(ctx: Context, rep) -> None:
         else:
             ok = bool(ctor_live) and not loads
             msg = "without a list file a new empty list is made"
-        rep.ob("C08.load", ok, loc=loc_fn.loc(), where=loc_fn.qualname,
+        rep.ob(rule, ok, loc=loc_fn.loc(), where=loc_fn.qualname,
                construct=f"file exists={exists}: constructor reachable="
                f"{bool(ctor_live)}, load reachable={bool(loads)}", message=msg)
     # tested path == loaded path == path of the new object
@@ -165,13 +243,13 @@ def run(ctx: Context, rep) -> None:
     ok = bool(tests) and bool(reads) and all(
         base_path(t.func.value) == base_path(r.func.value) ==
         "dataset_root_path / relative_path_self" for t in tests for r in reads)
-    rep.ob("C08.load", ok, loc=loc_fn.loc(), where=loc_fn.qualname,
+    rep.ob(rule, ok, loc=loc_fn.loc(), where=loc_fn.qualname,
            construct=f"test {[base_path(t.func.value) for t in tests]} / read "
            f"{[base_path(r.func.value) for r in reads]}",
            message="the file tested for existence is the file loaded")
     ctor_kw = [ast.unparse(ctx.arg(c, 0, "relative_path_self") or
                            ast.Constant(0)) for f, c in ctor_sites if f is loc_fn]
-    rep.ob("C08.load", ctor_kw == ["relative_path_self"], loc=loc_fn.loc(),
+    rep.ob(rule, ctor_kw == ["relative_path_self"], loc=loc_fn.loc(),
            where=loc_fn.qualname,
            construct=f"ShardsList(relative_path_self={ctor_kw})",
            message="a new list is bound to the requested path")
@@ -181,7 +259,7 @@ def run(ctx: Context, rep) -> None:
         MG,
     }
     callers = ctx.cg.callers(loc_fn.fq)
-    rep.ob("C08.load", acq <= callers, loc=loc_fn.loc(), where=loc_fn.qualname,
+    rep.ob(rule, acq <= callers, loc=loc_fn.loc(), where=loc_fn.qualname,
            construct=f"callers: {sorted(c.split(':')[1] for c in callers)}",
            message="the filler and the merge obtain their lists through "
            "load_or_create")
@@ -195,10 +273,25 @@ def run(ctx: Context, rep) -> None:
             if isinstance(c.func, ast.Attribute) and c.func.attr in (
                     "model_validate_json", "model_validate", "parse_raw") and \
                     "ShardsList" in ast.unparse(c.func.value):
-                rep.ob("C08.load", fn.fq in parse_ok, loc=fn.loc(c),
+                rep.ob(rule, fn.fq in parse_ok, loc=fn.loc(c),
                        where=fn.qualname, construct=short(c, 70),
                        message="list files are parsed only by the loader and "
                        "by the two read-only walkers")
+
+
+def run(ctx: Context, rep) -> None:
+    rep.not_decided = (
+        "correctness of the recursive merge over concrete histories (the "
+        "per-call accounting is C04.delta; here: load-then-extend, "
+        "de-duplication of the update set, prefix/key agreement of the "
+        "recursion, no destructive effect, refusal of create)")
+    rep.assumptions += [
+        "one live handle at a time (the property's quantifier)",
+        "is_file() of the resolved list path decides between load and create",
+    ]
+    loc_fn = ctx.fn(f"{SL}:ShardsList.load_or_create")
+
+    check_load(ctx, rep, "C08.load")
 
     # -- close_shard extends the loaded list ---------------------------------------
     cs = ctx.fn("sedpack.io.dataset_filler:_DatasetFillerContext.close_shard")
@@ -261,91 +354,7 @@ def run(ctx: Context, rep) -> None:
                        message="only append is allowed on the record lists")
     rep.floor("C08.subscript", n, 3, "instances")
 
-    # -- C08.dedup / recursion ------------------------------------------------------------
-    rep.rule(
-        "C08.dedup",
-        "in merge_shard_infos a known child is moved into the update set "
-        "only when no update for the same list file is present (otherwise a "
-        "reused sub-directory enters the recursion twice and the session "
-        "aborts after rewriting the child list); the recursion's prefix "
-        "slices use [:common], the grouping key is parts[common], the level "
-        "tests compare with common + 1 and the recursive call passes "
-        "common + 1")
-    mg = ctx.fn(MG)
-    mt = merge_terms(ctx)
-    G = mt["group"]
-    children_src = mt["obj"] + ".children_shard_lists"
-    if G is None:
-        rep.ob("C08.dedup", False, loc=mg.loc(), where=mg.qualname,
-               construct=collalg.pretty(mt["children"])[:160],
-               message="the re-attached children are not the per-directory "
-               "merges of a grouping of the updates")
-    else:
-        parts = collalg.concat_parts(G[2])
-        upd_parts = [p for p in parts if collalg.sources(p) == {"updates"}]
-        old_parts = [p for p in parts if children_src in collalg.sources(p)]
-        rep.ob("C08.dedup", len(upd_parts) >= 1 and len(old_parts) >= 1 and
-               len(upd_parts) + len(old_parts) == len(parts), loc=mg.loc(),
-               where=mg.qualname,
-               construct="grouped = " + collalg.pretty(G[2])[:200],
-               message="the recursion receives the deeper updates and the "
-               "already known children of this list (nothing else, nothing "
-               "lost)")
-        for p in old_parts:
-            ok, detail = superseded_filter(p, upd_parts, children_src)
-            rep.ob("C08.dedup", ok, loc=mg.loc(), where=mg.qualname,
-                   construct=f"known children moved: {collalg.pretty(p)[:150]}",
-                   message="a child that is being updated must be superseded "
-                   "by its update, not merged alongside it" + (
-                       f" ({detail})" if detail else ""))
-    text = ast.unparse(mg.node)
-    slices = [n for n in mg.body_nodes() if isinstance(n, ast.Subscript) and
-              ast.unparse(n.value).endswith(".parts")]
-    for s in slices:
-        sl = s.slice
-        if isinstance(sl, ast.Slice):
-            ok = sl.lower is None and sl.step is None and dotted(sl.upper) == \
-                "common"
-            what = "prefix slice"
-        else:
-            ok = dotted(sl) == "common"
-            what = "grouping key"
-        rep.ob("C08.dedup", ok, loc=mg.loc(s), where=mg.qualname,
-               construct=short(s), message=f"{what} must be relative to "
-               "`common`")
-    rec = [c for c in mg.calls() if ctx.is_call(
-        mg, c, "merge_shard_infos.merge_shard_infos")]
-    rep.ob("C08.dedup", len(rec) == 1 and ast.unparse(
-        ctx.arg(rec[0], 2, "common") or ast.Constant(0)) == "common + 1" and
-           ast.unparse(ctx.arg(rec[0], 1, "dataset_root") or ast.Constant(0))
-           == "dataset_root", loc=mg.loc(rec[0]) if rec else mg.loc(),
-           where=mg.qualname, construct=short(rec[0], 100) if rec else "<none>",
-           message="recursion descends exactly one directory level in the "
-           "same dataset")
-    lvl = [c for c in mg.body_nodes() if isinstance(c, ast.Compare) and
-           "len(" in ast.unparse(c.left) and ".parts" in ast.unparse(c.left)]
-    forms = sorted(ast.unparse(c.ops[0].__class__()) if False else
-                   type(c.ops[0]).__name__ + " " + ast.unparse(c.comparators[0])
-                   for c in lvl)
-    rep.ob("C08.dedup", forms == ["Eq common + 1", "Gt common + 1"],
-           loc=mg.loc(), where=mg.qualname, construct=f"level tests {forms}",
-           message="updates are split into this level (== common + 1) and "
-           "deeper (> common + 1), nothing is dropped")
-    # the group key for each deeper update comes from that update's own path
-    ok = G is not None and G[4] == "_" and \
-        "_.shard_list_info_file.file_path.parts[common]" in G[3]
-    rep.ob("C08.dedup", ok, loc=mg.loc(), where=mg.qualname,
-           construct="group key: " + (G[3] if G is not None else "<none>"),
-           message="every deeper update lands (itself, unchanged) in the "
-           "group of its own directory")
-    # merged children are all re-added
-    cparts = collalg.concat_parts(mt["children"])
-    ok = G is not None and len(cparts) == 1 and cparts[0][0] == "map" and \
-        cparts[0][1] == ("items", G) and is_recursive_merge(cparts[0][2])
-    rep.ob("C08.dedup", ok, loc=mg.loc(), where=mg.qualname,
-           construct="children = " + collalg.pretty(mt["children"])[:120],
-           message="every merged directory (each group, unfiltered) is "
-           "listed as a child again, exactly once")
+    check_dedup(ctx, rep, "C08.dedup")
 
     # -- C08.create ---------------------------------------------------------------------
     rep.rule(
